@@ -31,7 +31,7 @@ func init() {
 	core.Register(&core.Spec{
 		ID: "C20", Engine: "disco", Run: c20Run,
 		QuickRuns: 30000, ThorRuns: 150000, QuickCap: 60 * time.Second, ThorCap: 12 * time.Minute,
-		Rule: "a run has 1-5 targets, each with a drawn pattern of 0-5 probe failures (connect, non-200, body break, time-out on the fake clock) before its first success, 1-8 explorer workers, and a drawn interleaving of Get calls, probe completions (parked at the probe transport and released in drawn order), fake-clock advances, discovery updates removing / re-adding targets (also inside the retry wait), reloads keeping the job, and lock-acquisition order at the explorer's yield points; checked at the transport: no probe before the first Get, at most one probe per target in flight, no probe after success, retry not in the same instant, at most one queued probe after removal; after a quiet phase every asked discovered target has succeeded and Get / the shard target carry the probe's (kept,total); a case is (failures before success) x (plain | readded) x asked? x workers",
+		Rule: "a run has 1-5 targets, each with a drawn pattern of 0-5 probe failures (connect, non-200, body break - closed early or connection reset -, time-out on the fake clock) before its first success, 1-8 explorer workers, and a drawn interleaving of Get calls, probe completions (parked at the probe transport and released in drawn order), fake-clock advances, discovery updates removing / re-adding targets (also inside the retry wait), reloads keeping the job, and lock-acquisition order at the explorer's yield points; checked at the transport: no probe before the first Get, at most one probe per target in flight, no probe after success, retry not in the same instant, at most one queued probe after removal; after a quiet phase every asked discovered target has succeeded and Get / the shard target carry the probe's (kept,total); a case is (failures before success) x (plain | readded) x asked? x workers",
 		Real: realDisco, Stub: stubDisco, TapeCap: 20000,
 		SchedLabels: []string{"next", "release_yield", "drain_yield", "yield", "probe", "read_kind", "workers", "get_target", "sd_target", "advance_s", "label_order_salt?", "label_order_salt.a", "label_order_salt.b", "target_order", "group_of", "group_order", "new_instance"},
 		Assume: []string{"a parked probe is never held longer than the job's scrape time-out (the transport honours the request context)", "retry liveness is asserted after a 150 s quiet phase rather than with a per-retry deadline (the statement gives no bound; the README's 5 s is not used)"},
